@@ -143,7 +143,7 @@ class EmissionsConfig(CIBaseModel):
         return self.pmnvol_method != PMnvolMethod.NONE
 
     @cached_property
-    def enabled_species(self) -> set[Species]:
+    def enabled_species(self) -> frozenset[Species]:
         result = set()
 
         def add(*species: Species, label: str | None = None):
@@ -164,4 +164,6 @@ class EmissionsConfig(CIBaseModel):
             add(Species.PMnvolN, label='pmnvol')
         add(Species.SOx, Species.SO2, Species.SO4)
 
-        return result
+        # The configuration is immutable: callers must not be able to edit the
+        # (cached) set in place.
+        return frozenset(result)
